@@ -105,7 +105,8 @@ M_C15(cfg, meta, pre, r, post, g) ==
 
 WrapperMonitorIds == {"C01", "C03", "C09", "C10", "C11", "C14", "C15"}
 
-WMonitor(id, cfg, meta, pre, r, post, g) ==
+WMonitor(id, cfg, meta, pre0, r, post, g) ==
+  LET pre == WithGhostAges(pre0, g) IN
   CASE id = "C01" -> M_C01(cfg, meta, pre, r, post, g)
     [] id = "C03" -> M_C03(cfg, meta, pre, r, post, g)
     [] id = "C09" -> M_C09(cfg, meta, pre, r, post, g)
@@ -222,11 +223,13 @@ RecordFails(r, cfgs, metas, gs, xs, usedK, pm, pre, post) ==
 GsNext(r, metas, gs, post) ==
   CASE r.ev \in CacheOps -> [gs EXCEPT ![r.n] = GNext(gs[r.n], EngEvent(metas[r.n], r), post[r.n])]
     [] r.ev \in InvOps   -> [n \in DOMAIN gs |-> GRestrict(gs[n], Dom(post[n]))]
+    [] r.ev = "tick"     -> [n \in DOMAIN gs |-> [gs[n] EXCEPT !.age = [k \in DOMAIN @ |-> @[k] + r.d]]]
     [] OTHER -> gs
 
-XsNext(r, cfgs, metas, xs, usedK, pre) ==
+XsNext(r, cfgs, metas, gs, xs, usedK, pre) ==
   CASE r.ev = "get" ->
-         LET hit == r.k \in Dom(pre[r.n]) /\ ~Expired(cfgs[r.n], pre[r.n].store[r.k]) IN
+         LET pg == WithGhostAges(pre[r.n], gs[r.n])
+             hit == r.k \in Dom(pg) /\ ~Expired(cfgs[r.n], pg.store[r.k]) IN
          [xs EXCEPT ![r.n] = IF hit THEN [@ EXCEPT !.h = @ + 1] ELSE [@ EXCEPT !.m = @ + 1]]
     [] r.ev = "stats_reset" ->
          [n \in DOMAIN xs |-> IF n \in usedK /\ metas[n].cacheName = r.x THEN X0 ELSE xs[n]]
@@ -244,7 +247,8 @@ CallsOn(r, fixture) == {i \in DOMAIN r.ops : r.ops[i].op = "call" /\ r.ops[i].f 
 \* ghost to continue sequentially from an observed state
 GhostOf(c) ==
   LET o == SelectSeq(c.order, LAMBDA x : x \in Dom(c)) IN
-  [fifo |-> o, lru |-> o, gh |-> [k \in Dom(c) |-> c.store[k].hits], val |-> [k \in Dom(c) |-> c.store[k].val]]
+  [fifo |-> o, lru |-> o, gh |-> [k \in Dom(c) |-> c.store[k].hits], val |-> [k \in Dom(c) |-> c.store[k].val],
+   age |-> [k \in Dom(c) |-> c.store[k].age]]
 
 \* every stored key is known to the eviction queue (queue orphans are tolerated), bounds hold
 QuiescentOK(cfg, c) == Dom(c) \subseteq SeqRange(c.order) /\ WithinLimits(cfg, c)
